@@ -5456,11 +5456,11 @@ let padded_plaintext block s =
       slice_to b0.data padded_len))
 
 (** val priv_encrypt :
-    priv_key -> scoped -> z -> z -> ((priv_key * bytes) * bytes) res **)
+    priv_key -> scoped -> z -> z -> priv_key * (bytes * bytes) res **)
 
 let priv_encrypt k s boots time =
   match k.pk_alg with
-  | PNoPriv -> Err NotImplemented
+  | PNoPriv -> (k, (Err NotImplemented))
   | PDes ->
     let pp = app (be0 (wrap32 boots)) (be0 k.pk_salt) in
     let k' = { pk_alg = PDes; pk_key = k.pk_key; pk_pre_iv = k.pk_pre_iv;
@@ -5472,9 +5472,10 @@ let priv_encrypt k s boots time =
           (sub (S (S (S (S (S (S (S (S O))))))))
             (Nat.min (S (S (S (S (S (S (S (S O)))))))) (length k.pk_pre_iv))))
     in
-    bind (padded_plaintext dES_BLOCK_SIZE s) (fun pt -> Ok ((k',
-      (cbc_encrypt (des_encrypt_block k.pk_key) (S (S (S (S (S (S (S (S
-        O)))))))) iv pt)), pp))
+    (k',
+    (bind (padded_plaintext dES_BLOCK_SIZE s) (fun pt -> Ok
+      ((cbc_encrypt (des_encrypt_block k.pk_key) (S (S (S (S (S (S (S (S
+         O)))))))) iv pt), pp))))
   | PAes ->
     let pp =
       app (be0 (wrap32 boots)) (app (be0 (wrap32 time)) (be64 k.pk_salt))
@@ -5482,10 +5483,11 @@ let priv_encrypt k s boots time =
     let k' = { pk_alg = PAes; pk_key = k.pk_key; pk_pre_iv = k.pk_pre_iv;
       pk_salt = (wrap64 (Z.add k.pk_salt (Zpos XH))) }
     in
-    bind (padded_plaintext aES_BLOCK_SIZE s) (fun pt -> Ok ((k',
-      (cfb_encrypt (aes128_encrypt_block k.pk_key) (S (S (S (S (S (S (S (S (S
-        (S (S (S (S (S (S (S O)))))))))))))))) pp pt)),
-      (dropz (Zpos (XO (XO (XO XH)))) pp)))
+    (k',
+    (bind (padded_plaintext aES_BLOCK_SIZE s) (fun pt -> Ok
+      ((cfb_encrypt (aes128_encrypt_block k.pk_key) (S (S (S (S (S (S (S (S
+         (S (S (S (S (S (S (S (S O)))))))))))))))) pp pt),
+      (dropz (Zpos (XO (XO (XO XH)))) pp)))))
 
 (** val priv_decrypt_bytes : priv_key -> bytes -> usm -> bytes res **)
 
@@ -5570,10 +5572,16 @@ let v3_set_keys s user auth_alg0 auth_key_m priv_alg0 priv_key_m seed =
     engine_time = s.engine_time; user_name = user; auth = a; privk = p;
     msg_id = s.msg_id; request_id = s.request_id })
 
-(** val v3_push_pdu : v3sock -> pdu -> z -> (v3sock * bytes) res **)
+(** val with_priv_msgid : v3sock -> priv_key -> z -> v3sock **)
 
-let v3_push_pdu s p rnd_msg =
-  let flag_priv = has_priv s.privk.pk_alg in
+let with_priv_msgid s k mid =
+  { engine_id = s.engine_id; engine_boots = s.engine_boots; engine_time =
+    s.engine_time; user_name = s.user_name; auth = s.auth; privk = k;
+    msg_id = mid; request_id = s.request_id }
+
+(** val v3_message : v3sock -> pdu -> z -> bytes -> msgdata -> v3msg **)
+
+let v3_message s p mid pp d =
   let flag_report =
     match p with
     | PGetRequest g -> (match g.g_vars with
@@ -5581,31 +5589,34 @@ let v3_push_pdu s p rnd_msg =
                         | _ :: _ -> false)
     | _ -> false
   in
+  { m_msg_id = mid; m_flag_auth = (has_auth s.auth.ak_alg); m_flag_priv =
+  (has_priv s.privk.pk_alg); m_flag_report = flag_report; m_usm =
+  { u_engine_id = s.engine_id; u_engine_boots = s.engine_boots;
+  u_engine_time = s.engine_time; u_user_name = s.user_name; u_auth_params =
+  (placeholder s.auth.ak_alg); u_privacy_params = pp }; m_data = d }
+
+(** val v3_finish : v3sock -> v3msg -> bytes res **)
+
+let v3_finish s m =
+  bind (push_v3 empty_buffer m) (fun b ->
+    alg_sign s.auth b.data (get_bookmark b))
+
+(** val v3_push_pdu : v3sock -> pdu -> z -> v3sock * bytes res **)
+
+let v3_push_pdu s p rnd_msg =
   let sc = { s_engine_id = s.engine_id; s_pdu = p } in
-  bind
-    (if flag_priv
-     then bind (priv_encrypt s.privk sc s.engine_boots s.engine_time)
-            (fun ab ->
-            let (kc, pp) = ab in
-            let (k', ct) = kc in Ok (k', (pp, (Encrypted ct))))
-     else Ok (s.privk, ([], (Plaintext sc)))) (fun ab ->
-    let (pk', ppd) = ab in
-    let (pp, d) = ppd in
-    let mid = next_id rnd_msg in
-    let m = { m_msg_id = mid; m_flag_auth = (has_auth s.auth.ak_alg);
-      m_flag_priv = flag_priv; m_flag_report = flag_report; m_usm =
-      { u_engine_id = s.engine_id; u_engine_boots = s.engine_boots;
-      u_engine_time = s.engine_time; u_user_name = s.user_name;
-      u_auth_params = (placeholder s.auth.ak_alg); u_privacy_params = pp };
-      m_data = d }
-    in
-    let s' = { engine_id = s.engine_id; engine_boots = s.engine_boots;
-      engine_time = s.engine_time; user_name = s.user_name; auth = s.auth;
-      privk = pk'; msg_id = mid; request_id = s.request_id }
-    in
-    bind (push_v3 empty_buffer m) (fun b ->
-      bind (alg_sign s.auth b.data (get_bookmark b)) (fun signed -> Ok (s',
-        signed))))
+  let mid = next_id rnd_msg in
+  if has_priv s.privk.pk_alg
+  then let (k', r) = priv_encrypt s.privk sc s.engine_boots s.engine_time in
+       (match r with
+        | Ok a ->
+          let (ct, pp) = a in
+          ((with_priv_msgid s k' mid),
+          (v3_finish s (v3_message s p mid pp (Encrypted ct))))
+        | Err e -> ((with_priv_msgid s k' s.msg_id), (Err e))
+        | Panic -> ((with_priv_msgid s k' s.msg_id), Panic))
+  else ((with_priv_msgid s s.privk mid),
+         (v3_finish s (v3_message s p mid [] (Plaintext sc))))
 
 (** val with_request_id : v3sock -> z -> v3sock **)
 
